@@ -38,7 +38,7 @@ THEOREMS = [P + t for t in (
     "kernel_cell_exact", "kernel_cell_algebraic", "kernel_diag_exact",
     "kernel_diag_degenerate_partial",
     "bath_steps_round", "bath_last_time_step", "bath_int_conversions_listed", "bath_steps_literals",
-    "occupation_axis",
+    "occupation_axis", "initial_contribution",
 )]
 
 GRIDS = [("0.0", "0.1"), ("0.5", "0.2"), ("-0.3", "0.05"), ("1.7", "0.3")]
@@ -795,16 +795,22 @@ def displaced_oscillator(rig, c_exact):
     temp = rig.corr.temperature
 
     def n_th(w):
-        return 1.0 / (np.exp(w / temp) - 1.0)
+        return 1.0 / (np.exp(w / temp) - 1.0) if temp > 0 else 0.0
 
     def occupation(t, w):
         return c_exact * rig.corr.spectral_density(w) / w ** 2 * (2 - 2 * np.cos(w * t)) + n_th(w)
 
-    def correlation(t1, t2, w1, w2, dagg):
+    def correlation(t1, t2, w1, w2, dagg, change_only=True):
+        """<a^{dagg[0]}_{w2}(t2) a^{dagg[1]}_{w1}(t1)>: displacement part, plus -- for one and the same
+        mode and unless only the change is asked for -- the free part n_th e^{iw(t2-t1)} of <a'a>
+        resp. (n_th + 1) e^{-iw(t2-t1)} of <a a'>"""
         g1, g2 = rig.corr.spectral_density(w1) ** 0.5, rig.corr.spectral_density(w2) ** 0.5
         p1 = np.exp(1j * (2 * dagg[1] - 1) * w1 * t1)
         p2 = np.exp(1j * (2 * dagg[0] - 1) * w2 * t2)
-        return c_exact * (p1 * p2 - p1 - p2 + 1) * g1 * g2 / (w1 * w2)
+        r = c_exact * (p1 * p2 - p1 - p2 + 1) * g1 * g2 / (w1 * w2)
+        if not change_only and w1 == w2 and tuple(dagg) in ((1, 0), (0, 1)):
+            r += (n_th(w1) + (1.0 if tuple(dagg) == (0, 1) else 0.0)) * p1 * p2
+        return r
     return occupation, correlation
 
 
@@ -883,7 +889,7 @@ def oracle_occupation_axis(report, cases):
 def oracle_single_step(report):
     """(8) a fresh object asked for a single step: the one-cell result vs the closed form, and the
     stored system correlation vs a direct compute_correlations call"""
-    op = np.array([[1.0, -0.5j], [0.5j, 0.0]])
+    op = np.diag([0.5, -0.5]).astype(complex)
     rig = BathRig(op, n=3, dt=0.1, epsrel=1e-7, commuting=True)
     c_exact = float(np.trace(rig.o @ rig.o @ rig.rho).real)
     _, corr_ref = displaced_oscillator(rig, c_exact)
@@ -901,12 +907,53 @@ def oracle_single_step(report):
                 "how": "a first request for one step must generate the 1x1 system correlation"})
 
 
+def oracle_initial_terms(report, temps, nsteps=4):
+    """(9) the initial state of the bath modes: thermal occupation n_th and the vacuum +1 of <a a'>,
+    for zero and finite temperature, equal and different frequencies, all dagg, change_only
+    False/True, vs the displaced-oscillator closed form; the commutator <a a'> - <a' a> = 1"""
+    # diagonal coupling and times that are exact multiples of dt: this oracle is about the initial
+    # contribution only (operator rebuilding / float time conversion have their own ties)
+    op = np.diag([0.5, -0.5]).astype(complex)
+    for temp in temps:
+        rig = BathRig(op, n=nsteps, dt=0.1, epsrel=1e-7, commuting=True, temperature=temp)
+        c_exact = float(np.trace(rig.o @ rig.o @ rig.rho).real)
+        occ_ref, corr_ref = displaced_oscillator(rig, c_exact)
+        for (t1, t2), (w1, w2), dagg, co in itertools.product(
+                [(0.2, 0.4), (0.4, 0.4)], [(1.0, 1.0), (1.0, 3.0)],
+                [(0, 0), (0, 1), (1, 0), (1, 1)], [False, True]):
+            num = rig.obj.correlation(w1, t1, w2, t2, dagg=dagg, change_only=co, progress_type="silent")
+            ref = corr_ref(t1, t2, w1, w2, dagg, change_only=co)
+            if not abs(num - ref) < 1e-6:
+                report("bath-initial", "bath-correlation-initial:T=%r dagg=%s freq_1=%r freq_2=%r "
+                       "change_only=%s" % (temp, dagg, w1, w2, co),
+                       {"api": "TwoTimeBathCorrelations.correlation", "temperature": temp, "freq_1": w1,
+                        "time_1": t1, "freq_2": w2, "time_2": t2, "dagg": list(dagg), "change_only": co,
+                        "got": repr(complex(num)), "displaced_oscillator_closed_form": repr(complex(ref))})
+        a = rig.obj.correlation(1.0, 0.4, 1.0, 0.4, dagg=(0, 1), progress_type="silent")
+        b = rig.obj.correlation(1.0, 0.4, 1.0, 0.4, dagg=(1, 0), progress_type="silent")
+        if not abs((a - b) - 1.0) < 1e-9:
+            report("bath-commutator", "bath-commutator:T=%r <a a'> - <a' a> at equal frequency and time"
+                   % temp,
+                   {"api": "TwoTimeBathCorrelations.correlation", "temperature": temp, "freq": 1.0,
+                    "time": 0.4, "a_adag": repr(complex(a)), "adag_a": repr(complex(b)),
+                    "commutator": repr(complex(a - b)), "expected": 1.0})
+        for co in (False, True):
+            tl, occ = rig.obj.occupation(1.0, change_only=co, progress_type="silent")
+            want = occ_ref(np.asarray(tl)[:len(occ)], 1.0) - (occ_ref(0.0, 1.0) if co else 0.0)
+            if not np.abs(occ - want).max() < 1e-6:
+                report("bath-occupation-initial", "bath-occupation-initial:T=%r change_only=%s" % (temp, co),
+                       {"api": "TwoTimeBathCorrelations.occupation", "temperature": temp, "freq": 1.0,
+                        "change_only": co, "got": [float(x) for x in occ],
+                        "displaced_oscillator_closed_form": [float(x) for x in np.atleast_1d(want)]})
+
+
 AXIS_CASES = [(n, dt) for dt in (0.1, 0.05, 0.2) for n in (2, 11, 12, 14, 23)]
 
 
 def search_bath_axes(report):
     oracle_occupation_axis(report, [(n, dt) for dt in (0.1, 0.05) for n in range(2, 31)])
     oracle_single_step(report)
+    oracle_initial_terms(report, (0.0, 0.5, 2.0), nsteps=6)
 
 
 def bath_axes_correspondence(res, tier):
@@ -937,6 +984,7 @@ def bath_axes_correspondence(res, tier):
             res.fail(key, payload)
     oracle_occupation_axis(report, cases)
     oracle_single_step(report)
+    oracle_initial_terms(report, (0.0, 2.0))
 
 
 # ---------------------------------------------------------------------------
